@@ -20,6 +20,10 @@
 //	  rp reportPeer, arg = reputation change (signed hex)
 //	  dc disconnect, arg = 1 for RefusedDrop else 0
 //
+// input `cst`: observed = BannedThresholdValue disconnectReputationChange (signed hex); the driver
+// compares them with Model.banned_threshold / disconnect_change (the first is
+// `82 * (math.MinInt32 / 100)`, which the constant translator cannot read).
+//
 // observed: one token per executed operation (execution stops after a hang):
 //
 //	<err>|<msgs>|<numIn>,<numOut>|<peer>,<peer>,...      or   hang   or   panic
@@ -141,6 +145,9 @@ func c30Exec(ps *PeerSet, code, arg string, peers []peer.ID) error {
 // c30RunOnce executes one sequence; stalled reports that some operation took so long in wall-clock
 // time (machine load) that updateTime may have seen an extra elapsed second.
 func c30RunOnce(in string) (result string, stalled, hung bool) {
+	if in == "cst" { // constants the translator cannot read (math.MinInt32 expression), compared with Model.v
+		return vu.XI(int64(BannedThresholdValue)) + " " + vu.XI(int64(disconnectReputationChange)), false, false
+	}
 	f := strings.Split(in, " ")
 	if len(f) < 5 || f[0] != "ps" {
 		return "err:badinput", false, false
@@ -352,6 +359,7 @@ func c30Op(r *vu.RNG, n int) string {
 func c30Gen(r *vu.RNG, n int, emit func(string)) {
 	// fixed cases: a change reported for two peers; report for an unknown peer; un-reserving a
 	// connected peer with full slots; ban and re-allocation
+	emit("cst")
 	emit("ps 2 2 0 2 0:ap:0:ab 0:rp:a:ab 0:rp:-a:ba")
 	emit("ps 2 2 0 2 0:rp:10:a 0:rp:10:ab")
 	emit("ps 1 1 0 3 0:ar:0:a 0:in:0:a 0:in:0:b 0:rr:0:a")
